@@ -22,12 +22,12 @@ func runBytea(r *core.Run) {
 	}
 	for _, v := range vals {
 		r.Begin("bytea-rt-"+core.Hex(v), true, "stream:structured", "bytea:roundtrip")
-		oct := core.UnHex(r.Do("C12.bytea.octal.enc " + core.Hex(v)))
+		oct := core.UnHex(r.Do("C12.bytea.octal.enc " + core.Hex(v))[3:])
 		back := r.Do("C12.bytea.octal.dec " + core.Hex(oct))
 		r.Check(back == core.OkHex(v), "bytea-octal-roundtrip", fmt.Sprintf("DecodeOctal(EncodeToOctal(%x)) = %s", v, back))
 		back = r.Do("C12.bytea.escaped.dec " + core.Hex(oct))
 		r.Check(back == core.OkHex(v), "bytea-octal-roundtrip", fmt.Sprintf("DecodeEscaped(EncodeToOctal(%x)) = %s", v, back))
-		hx := core.UnHex(r.Do("C12.bytea.hex.enc " + core.Hex(v)))
+		hx := core.UnHex(r.Do("C12.bytea.hex.enc " + core.Hex(v))[3:])
 		back = r.Do("C12.bytea.escaped.dec " + core.Hex(hx))
 		r.Check(back == core.OkHex(v), "bytea-hex-roundtrip", fmt.Sprintf("DecodeEscaped(PgEncodeToHex(%x)) = %s", v, back))
 	}
